@@ -31,7 +31,9 @@ impl IoDriver {
     }
 
     pub(crate) async fn open(&self, path: impl AsRef<Path>) -> IOResult<File> {
-        File::from_file(path, |f| f.create(false).append(true).read(true)).await
+        // Positional writes only: in append mode the OS ignores the offset of `write_all_at` and appends at the
+        // end of the file, which differs from the reserved offset after a failed or partial write
+        File::from_file(path, |f| f.create(false).write(true).read(true)).await
     }
 
     pub(crate) async fn create(&self, path: impl AsRef<Path>) -> IOResult<File> {
